@@ -83,12 +83,13 @@ def detect(seed, pid, tier="quick"):
         rc, out = sh(["git", "-C", str(wt), "apply", str(seed / "patch.diff")])
         if rc:
             raise SystemExit(out)
-        rc, out = sh([str(VERIF / "check"), pid, "--tier", tier], cwd=VERIF, env={"PGV_REPO": str(wt)}, timeout=7200)
+        rc, out = sh([str(VERIF / "check"), pid, "--tier", tier], cwd=VERIF,
+                     env={"PGV_REPO": str(wt), "PGV_EVIDENCE_DIR": str(d / "evidence"), "PGV_REPLAY_DIR": str(d / "replays")}, timeout=7200)
         viol = [l for l in out.splitlines() if l.startswith("VIOLATION")]
         summary = [l for l in out.splitlines() if l.startswith(f"[{pid}]")]
         replay = None
         if viol:
-            rp = VERIF / viol[0].split("replay=")[1].split()[0]
+            rp = Path(viol[0].split("replay=")[1].split()[0])
             if rp.exists():
                 replay = json.loads(rp.read_text())
         res = {"seed": str(seed), "property": pid, "tier": tier, "exit": rc, "violations": viol[:5], "summary": summary,
